@@ -651,7 +651,6 @@ func TestC16Grid(t *testing.T) {
 	_ = strings.Join
 }
 
-
 // TestC16Embedded: structs that embed structs. Field k of such a struct is what
 // Go's selector x.k denotes: the struct's own field before a promoted one, the
 // shallower promoted field before a deeper one.
